@@ -254,7 +254,13 @@ async def run_case(backend, seed, counters, coverage):
         for g in gens:
             later = [x["start"] for x in gens if x["conn"] == g["conn"] and x["sub"] == g["sub"] and x["start"] > g["start"]]
             g["window_end"] = min(later) if later else Q + 1
-            g["eose"] = next((n for n, f in frames[g["conn"]] if g["start"] < n < g["window_end"] and isinstance(f, list) and len(f) > 1 and f[0] == "EOSE" and f[1] == g["sub"]), None)
+            # the LAST EOSE of the window: on LMDB a query cancelled by this very REQ (it replaced a generation whose
+            # stored query was still running) still queues its own EOSE, which then arrives BEFORE this generation's
+            # stored results; taking the first one would make those results look like repeated live pushes
+            eoses = [n for n, f in frames[g["conn"]] if g["start"] < n < g["window_end"] and isinstance(f, list) and len(f) > 1 and f[0] == "EOSE" and f[1] == g["sub"]]
+            g["eose"] = eoses[-1] if eoses else None
+            if len(eoses) > 1:
+                counters["generations_with_stale_eose"] = counters.get("generations_with_stale_eose", 0) + 1
         rp = {"backend": backend, "seed": seed}
         # ---- per (event, generation) obligations ----------------------------------------------
         for X in accepted:
@@ -303,6 +309,22 @@ async def run_case(backend, seed, counters, coverage):
                                          % (backend, ev["id"][:10], len(pushes), g["sub"], json.dumps(g["filters"])[:160], g["eose"], X.start, X.done, pushes, g["start"], g["done"],
                                             g["end"], g["end_start"], g["window_end"], sum(1 for cc in range(nconn) for cm in cmds[cc] if cm.kind == "EVENT" and cm.event["id"] == ev["id"]),
                                             ev["id"] in dup_ids), "replay": rp})
+                    if ev["id"] not in dup_ids and not stored_possible:
+                        # keep the whole boundary log of this connection for diagnosis
+                        try:
+                            import os as _os
+
+                            dd = _os.path.join(_os.path.dirname(_os.path.dirname(_os.path.dirname(_os.path.abspath(__file__)))), "out", "diag")
+                            _os.makedirs(dd, exist_ok=True)
+                            cname = conns[g["conn"]].name
+                            with open(_os.path.join(dd, "c05-%s-%d-%s.json" % (backend, seed, ev["id"][:8])), "w") as fp:
+                                json.dump({"event": ev, "conn": cname, "gens": [x for x in gens if x["conn"] == g["conn"]],
+                                           "cmds": [[cm.kind, cm.sub, cm.start, cm.done, (cm.event or {}).get("id"), cm.filters] for cm in cmds[g["conn"]]],
+                                           "submissions": [[cc, cm.start, cm.done, cm.ok] for cc in range(nconn) for cm in cmds[cc] if cm.kind == "EVENT" and cm.event["id"] == ev["id"]],
+                                           "log": [[n, cn, kd, (dt if not isinstance(dt, str) else dt[:300])] for n, cn, kd, dt in rig.rec.events if cn == cname or (isinstance(dt, str) and ev["id"] in dt)]},
+                                          fp, default=repr, indent=0)
+                        except Exception:
+                            pass
                 if def_open and must and stays:
                     bump(pairs, "definitely_open_must")
                     nontrivial.append(h([backend, seed, ev["id"], g["conn"], g["sub"], g["start"], "must"]))
